@@ -27,9 +27,14 @@ INTS = [('signed char', 1, True), ('unsigned char', 1, False), ('short', 2, True
         ('unsigned long long', 8, False), ('int8_t', 1, True), ('uint16_t', 2, False),
         ('int32_t', 4, True), ('uint64_t', 8, False), ('size_t', 8, False), ('ssize_t', 8, True)]
 ARGT = [t[0] for t in INTS] + ['_Bool', 'char', 'float', 'double', 'int *', 'char *',
-                               'struct pt *', 'struct pt', 'long *']
+                               'struct pt *', 'struct pt', 'long *', 'struct pa', 'struct pd',
+                               'struct pb']
 RETT = [t[0] for t in INTS] + ['_Bool', 'char', 'float', 'double', 'void', 'int *', 'struct pt']
-STRUCT = 'struct pt { int a; short b; double c; };'
+STRUCT = ('struct pt { int a; short b; double c; }; struct pa { float a[2][2]; }; '
+          'struct pd { int a[2][2]; }; struct pb { char c[3]; short s; };')
+SMALL = {'struct pa': '(long long)(%s.a[0][0] + 2 * %s.a[0][1] + 3 * %s.a[1][0] + 4 * %s.a[1][1])',
+         'struct pd': '(long long)(%s.a[0][0] + 2LL * %s.a[0][1] + 3LL * %s.a[1][0] + 4LL * %s.a[1][1])',
+         'struct pb': '(long long)(%s.c[0] + 2 * %s.c[1] + 3 * %s.c[2] + 4 * %s.s)'}
 
 
 def gen_module(seed, nfun):
@@ -56,6 +61,14 @@ def platform_libffi_bug(args):
     gpr, structs = 0, 0
     for a in args:
         if a in ('float', 'double'):
+            continue
+        if a in ('struct pd',):
+            gpr += 2 if gpr + 2 <= 6 else 0
+            continue
+        if a == 'struct pb':
+            gpr += 1 if gpr < 6 else 0
+            continue
+        if a == 'struct pa':
             continue
         if a == 'struct pt':
             if gpr + 1 <= 6:
@@ -88,10 +101,12 @@ def c_body(f):
         elif a == 'char *':
             st.append('if (%s) { acc = acc * 31 + (unsigned char)%s[0]; }' % (n, n))
         elif a == 'struct pt *':
-            st.append('if (%s) { acc = acc * 31 + %s->a + %s->b; %s->a += 1; %s->c = %s->c * 2; }'
-                      % (n, n, n, n, n, n))
+            st.append('if (%s) { acc = acc * 31 + %s->a + %s->b + (long long)%s->c; %s->a += 1; '
+                      '%s->c = %s->c * 2; }' % (n, n, n, n, n, n, n))
         elif a == 'struct pt':
             st.append('acc = acc * 31 + %s.a + %s.b + (long long)%s.c;' % (n, n, n))
+        elif a in SMALL:
+            st.append('acc = acc * 31 + %s;' % (SMALL[a] % (n, n, n, n)))
         else:
             st.append('acc = acc * 31 + (long long)%s;' % n)
     st.append('errno = (int)(acc & 0x7fff) + 1;')
@@ -165,7 +180,22 @@ def gen_arg(rnd, a):
     if a == 'struct pt *':
         sv = [rnd.randint(-100, 100), rnd.randint(-100, 100), rnd.choice([1.5, -3.0, 100.25])]
         return rnd.choice([{'k': 'structptr', 'v': sv}, {'k': 'structptr', 'v': sv},
-                           {'k': 'null'}, {'k': 'wrongptr'}, {'k': 'structlist', 'v': sv}])
+                           {'k': 'null'}, {'k': 'wrongptr'}, {'k': 'structlist', 'v': sv},
+                           {'k': 'partial', 'v': [{'a': sv[0]}]},
+                           {'k': 'partial', 'v': [[sv[0]], {'b': sv[1]}]},
+                           {'k': 'partial', 'v': [{'b': sv[1]}] * 20}])
+    if a == 'struct pa':
+        v = [[[rnd.choice([1.5, -2.0, 100.25, 0.0]) for _ in range(2)] for _ in range(2)]]
+        return rnd.choice([{'k': 'sval', 't': a, 'v': v}, {'k': 'sval', 't': a, 'v': v},
+                           {'k': 'rawlist', 'v': v}, {'k': 'int', 'v': 1}])
+    if a == 'struct pd':
+        v = [[[rnd.randint(-1000, 1000) for _ in range(2)] for _ in range(2)]]
+        return rnd.choice([{'k': 'sval', 't': a, 'v': v}, {'k': 'sval', 't': a, 'v': v},
+                           {'k': 'rawlist', 'v': v}, {'k': 'none'}])
+    if a == 'struct pb':
+        v = [[rnd.randint(-100, 100) % 256 for _ in range(3)], rnd.randint(-30000, 30000)]
+        return rnd.choice([{'k': 'sval', 't': a, 'v': [bytes(v[0]).hex(), v[1]]},
+                           {'k': 'str'}])
     if a == 'struct pt':
         sv = [rnd.randint(-100, 100), rnd.randint(-100, 100), rnd.choice([1.5, -3.0, 100.25])]
         return rnd.choice([{'k': 'struct', 'v': sv}, {'k': 'struct', 'v': sv},
@@ -250,6 +280,15 @@ def make_arg(ffi, d, keep):
         return p if k == 'structptr' else p[0]
     if k == 'structlist':
         return list(d['v'])
+    if k in ('partial', 'rawlist'):
+        return d['v']        # list of partial struct initializers / raw nested list
+    if k == 'sval':
+        v = d['v']
+        if d['t'] == 'struct pb':
+            v = [bytes.fromhex(v[0]), v[1]]
+        p = ffi.new(d['t'] + ' *', v)
+        keep.append(('buf', p))
+        return p[0]
     if k == 'dict':
         return {'a': d['v'][0], 'b': d['v'][1], 'c': d['v'][2]}
     if k == 'castll':
